@@ -1075,4 +1075,344 @@ Proof.
   - rewrite !(jstep_other p s _ Hc). apply Dich_ext, ext_err, generic_not_nil.
 Qed.
 
+
+(* ------------------------------------------------------------------ *)
+(* merging two consecutive feeds into one                              *)
+(* ------------------------------------------------------------------ *)
+(* same visitor, same error; the same parser (modulo peq) unless an error occurred *)
+Definition sim (r r' : fres) : Prop :=
+  let '(p, s, e) := r in let '(p', s', e') := r' in
+  s = s' /\ e = e' /\ (e = jpnil -> peq p p').
+Lemma sim_refl : forall r, sim r r.
+Proof. intros [[p s] e]; cbn; auto using peq_refl. Qed.
+Lemma sim_trans : forall r1 r2 r3, sim r1 r2 -> sim r2 r3 -> sim r1 r3.
+Proof.
+  intros [[p1 s1] e1] [[p2 s2] e2] [[p3 s3] e3] (A1 & A2 & A3) (B1 & B2 & B3). cbn [sim].
+  split; [congruence|]. split; [congruence|]. intros E.
+  eapply peq_trans; [apply A3; exact E|apply B3; congruence].
+Qed.
+
+Lemma inv_states : forall p, inv p -> Forall ret_state (jp_states p).
+Proof. intros p H. apply H. Qed.
+
+Lemma R_peq : forall p s b r, R p s b r -> forall q, peq p q -> inv p -> b <> [] ->
+  exists r', R q s b r' /\ sim r r'.
+Proof.
+  induction 1 as [p s b p1 s1 rest d e E Hn | p s b p1 s1 rest d r E Hr HR IH | p s b p1 s1 d E];
+    intros q Hq Hi Hb;
+    pose proof (jstep_peq p q s b Hq (inv_states p Hi)) as Hp; rewrite E in Hp;
+    destruct (jstep pf q s b) as [p2 s2 rest2 d2 e2|w] eqn:Eq; cbn [rpeq] in Hp; try contradiction;
+    destruct Hp as (Hp1 & <- & <- & <- & <-).
+  - exists (p2, s1, e). split; [eapply R_err; eauto|]. cbn [sim]. split; [reflexivity|]. split; [reflexivity|]. intros; congruence.
+  - assert (Hi1 : inv p1) by (eapply jstep_inv; eauto).
+    destruct (IH p2 Hp1 Hi1 Hr) as (r' & R' & S').
+    exists r'. split; [eapply R_more; eauto|exact S'].
+  - exists (p2, s1, jpnil). split; [eapply R_stop; eauto|]. cbn [sim]. auto.
+Qed.
+
+Lemma R_ext_nil : forall p1 s1 b p s x r,
+  inv p1 -> b <> [] ->
+  ext [] (jstep pf p1 s1 b) (jstep pf p s x) -> R p1 s1 b r ->
+  exists r', R p s x r' /\ sim r r'.
+Proof.
+  intros p1 s1 b p s x r Hi Hb X H.
+  inversion H; subst;
+    match goal with E : jstep pf p1 s1 b = _ |- _ => rewrite E in X; rename E into E1 end;
+    destruct (jstep pf p s x) as [pw sw restw dw ew|w] eqn:W; cbn [ext] in X;
+    try contradiction; destruct X as (<- & <- & X).
+  - eexists; split; [eapply R_err; eauto|]. cbn [sim]. split; [reflexivity|]. split; [reflexivity|]. intros; congruence.
+  - destruct (X eq_refl) as (Hq & ->). rewrite app_nil_r in W.
+    assert (Hi2 : inv p2) by (exact (jstep_inv _ _ _ _ _ _ _ Hi Hb E1)).
+    match goal with HR : R p2 _ _ r |- _ => destruct (R_peq _ _ _ _ HR pw Hq Hi2) as (r' & R' & S'); [assumption|] end.
+    exists r'. split; [eapply R_more; eauto|exact S'].
+  - destruct (X eq_refl) as (Hq & ->). cbn [app] in W.
+    eexists; split; [eapply R_stop; eauto|]. cbn [sim]. auto.
+Qed.
+
+Lemma R_merge : forall p s a r, R p s a r ->
+  inv p -> a <> [] -> forall b, b <> [] ->
+  (snd r <> jpnil -> exists p1', R p s (a ++ b) (p1', snd (fst r), snd r)) /\
+  (snd r = jpnil -> forall r2, R (fst (fst r)) (snd (fst r)) b r2 ->
+                   exists r2', R p s (a ++ b) r2' /\ sim r2 r2').
+Proof.
+  induction 1 as [p s a p1 s1 rest d e E Hn | p s a p1 s1 rest d r E Hr HR IH | p s a p1 s1 d E];
+    intros Hi Ha b Hb;
+    pose proof (jstep_dich p s a b Hi Ha) as D; rewrite E in D; cbn [Dich] in D.
+  - cbn [fst snd]. split; [intros _|congruence].
+    destruct D as [D|(_ & D & _)]; [|congruence].
+    destruct (jstep pf p s (a ++ b)) as [p2 s2 rest2 d2 e2|w] eqn:W; cbn [ext] in D; [|contradiction].
+    destruct D as (<- & <- & _). exists p2. eapply R_err; eauto.
+  - destruct D as [D|(D & _)]; [|congruence].
+    destruct (jstep pf p s (a ++ b)) as [p2 s2 rest2 d2 e2|w] eqn:W; cbn [ext] in D; [|contradiction].
+    destruct D as (<- & <- & D). destruct (D eq_refl) as (Hq & ->).
+    assert (Hi1 : inv p1) by (exact (jstep_inv _ _ _ _ _ _ _ Hi Ha E)).
+    destruct (IH Hi1 Hr b Hb) as [IH1 IH2].
+    assert (Hrb : rest ++ b <> []) by (apply app_nonnil; exact Hr).
+    split.
+    + intros Hn. destruct (IH1 Hn) as [p1' R1].
+      destruct (R_peq _ _ _ _ R1 p2 Hq Hi1 Hrb) as ([[p1'' s''] e''] & R2 & S2).
+      cbn [sim] in S2. destruct S2 as (<- & <- & _).
+      exists p1''. eapply R_more; eauto.
+    + intros Hn r2 R2. destruct (IH2 Hn r2 R2) as (r2' & R2' & S2).
+      destruct (R_peq _ _ _ _ R2' p2 Hq Hi1 Hrb) as (r2'' & R3 & S3).
+      exists r2''. split; [eapply R_more; eauto|eapply sim_trans; eauto].
+  - cbn [fst snd]. split; [congruence|intros _ r2 R2].
+    assert (Hi1 : inv p1) by (exact (jstep_inv _ _ _ _ _ _ _ Hi Ha E)).
+    destruct D as [D|(_ & _ & D)].
+    + destruct (jstep pf p s (a ++ b)) as [p2 s2 rest2 d2 e2|w] eqn:W; cbn [ext] in D; [|contradiction].
+      destruct D as (<- & <- & D). destruct (D eq_refl) as (Hq & ->). cbn [app] in W.
+      destruct (R_peq _ _ _ _ R2 p2 Hq Hi1 Hb) as (r2' & R3 & S3).
+      exists r2'. split; [eapply R_more; eauto|exact S3].
+    + eapply R_ext_nil; eauto.
+Qed.
+
+Lemma R_Inv : forall p s a r, R p s a r -> Inv p -> a <> [] -> snd r = jpnil -> Inv (fst (fst r)).
+Proof.
+  induction 1 as [p s a p1 s1 rest d e E Hn | p s a p1 s1 rest d r E Hr HR IH | p s a p1 s1 d E];
+    intros HI Ha Hn'.
+  - cbn in Hn'. congruence.
+  - apply IH; auto. exact (jstep_Inv _ _ _ _ _ _ _ HI Ha E).
+  - cbn. exact (jstep_Inv _ _ _ _ _ _ _ HI Ha E).
+Qed.
+
+Lemma Feed_Inv : forall p s a p1 s1, Feed p s a (p1, s1, jpnil) -> Inv p -> Inv p1.
+Proof.
+  intros p s a p1 s1 [[_ H]|[Ha H]] HI.
+  - inversion H; subst. exact HI.
+  - apply (R_Inv _ _ _ _ H HI Ha eq_refl).
+Qed.
+
+Lemma Feed_merge : forall p s a b p1 s1 e, inv p -> Feed p s a (p1, s1, e) ->
+  (e <> jpnil -> exists p1', Feed p s (a ++ b) (p1', s1, e)) /\
+  (e = jpnil -> forall r2, Feed p1 s1 b r2 -> exists r2', Feed p s (a ++ b) r2' /\ sim r2 r2').
+Proof.
+  intros p s a b p1 s1 e HI [[Ha H]|[Ha H]].
+  - inversion H; subst. cbn [app]. split; [congruence|].
+    intros _ r2 F2. exists r2. split; [exact F2|apply sim_refl].
+  - destruct b as [|b0 br].
+    + rewrite app_nil_r. split.
+      * intros _. exists p1. right. auto.
+      * intros -> r2 [[_ ->]|[Hb _]]; [|congruence].
+        exists (p1, s1, jpnil). split; [right; auto|apply sim_refl].
+    + assert (Hb : b0 :: br <> []) by discriminate.
+      destruct (R_merge _ _ _ _ H HI Ha _ Hb) as [M1 M2]. cbn [fst snd] in M1, M2.
+      split.
+      * intros Hn. destruct (M1 Hn) as [p1' R1]. exists p1'. right. split; auto.
+        apply app_nonnil; exact Ha.
+      * intros Hn r2 [[Hb' _]|[_ R2]]; [congruence|].
+        destruct (M2 Hn r2 R2) as (r2' & R2' & S2). exists r2'. split; [|exact S2].
+        right. split; auto. apply app_nonnil; exact Ha.
+Qed.
+
+
+(* ------------------------------------------------------------------ *)
+(* finalize, sequences of writes, Parse                                *)
+(* ------------------------------------------------------------------ *)
+Lemma jpop_req : forall p x, jpop (jset_req p x) = jset_req (jpop p) x.
+Proof. intros p x. unfold jpop. js. destruct (jp_states p); reflexivity. Qed.
+
+Lemma jfinalize_req : forall p x s,
+  jfinalize pf (jset_req p x) s =
+  match jfinalize pf p s with Some (p1, s1, e1) => Some (jset_req p1 x, s1, e1) | None => None end.
+Proof.
+  intros p x s. unfold jfinalize. js.
+  destruct (jp_cur p =? jNumber).
+  - destruct (report_number pf s (jp_lit p) (jp_isdbl p)) as [[s1 e]|]; [|reflexivity].
+    destruct (jisnil e); cbn [negb]; [|reflexivity].
+    rewrite jpop_req. js. destruct (_ && _); reflexivity.
+  - cbn [negb]. destruct (_ && _); reflexivity.
+Qed.
+
+Lemma jfinalize_peq : forall p q s p' s' e',
+  peq p q -> jfinalize pf p s = Some (p', s', e') -> exists q', jfinalize pf q s = Some (q', s', e').
+Proof.
+  intros p q s p' s' e' H E. rewrite (peq_setreq _ _ H), jfinalize_req, E. eauto.
+Qed.
+
+(* what a run on the whole input b reports: the visitor and the verdict *)
+Definition Whole (p : jparser) (s : sink) (b : bytes) (o : sink * Z) : Prop :=
+  exists pm sm em, Feed p s b (pm, sm, em) /\
+    ((em <> jpnil /\ o = (sm, em)) \/
+     (em = jpnil /\ exists p', jfinalize pf pm sm = Some (p', fst o, snd o))).
+
+Lemma Whole_det : forall p s b o o', Whole p s b o -> Whole p s b o' -> o = o'.
+Proof.
+  intros p s b [so eo] [so' eo'] (pm & sm & em & F & O) (pm' & sm' & em' & F' & O').
+  pose proof (Feed_det _ _ _ _ _ F F') as E. inversion E; subst.
+  destruct O as [[O1 O2]|[O1 [q O2]]], O' as [[O1' O2']|[O1' [q' O2']]]; try congruence.
+  cbn [fst snd] in *. rewrite O2 in O2'. inversion O2'; subst. reflexivity.
+Qed.
+
+Lemma jset_err_same : forall p e, jp_err p = e -> jset_err p e = p.
+Proof. intros [c st l ie d r e0] e H. cbn in H. subst. reflexivity. Qed.
+
+Lemma jp_write_Ok : forall p s c p1 s1 err, inv p -> jp_write pf p s c = Ok (p1, s1, err) ->
+  exists p1', Feed p s c (p1', s1, err) /\ p1 = jset_err p1' (if jisnil err then 0 else err).
+Proof.
+  intros p s c p1 s1 err Hi H. unfold jp_write in H.
+  destruct (jfeed (2 * length c + 2) pf p s c) as [[[p1' s1'] e']| | |] eqn:E; try discriminate.
+  inversion H; subst. exists p1'. split; [|reflexivity].
+  eapply jfeed_sound; eauto.
+Qed.
+
+Lemma with_final_Some : forall p s r, with_final pf p s = Ok r -> jfinalize pf p s = Some r.
+Proof. intros p s r. unfold with_final. destruct (jfinalize pf p s); [intros [= ->]; reflexivity|discriminate]. Qed.
+
+Lemma writes_whole : forall cs p s p' sf ef, Inv p ->
+  jp_writes pf p s cs = Ok (p', sf, ef) -> Whole p s (concat cs) (sf, ef).
+Proof.
+  induction cs as [|c cs IH]; intros p s p' sf ef HI H.
+  - cbn [jp_writes concat] in *. apply with_final_Some in H.
+    exists p, s, jpnil. split; [left; auto|]. right. split; [reflexivity|]. exists p'. exact H.
+  - cbn [jp_writes concat] in *.
+    destruct (jp_write pf p s c) as [[[p1 s1] err]| | |] eqn:E; try discriminate.
+    destruct (jp_write_Ok _ _ _ _ _ _ (proj1 HI) E) as (p1' & F & ->).
+    destruct (Feed_merge p s c (concat cs) p1' s1 err (proj1 HI) F) as [M1 M2].
+    destruct (jisnil err) eqn:Ee.
+    + apply jisnil_true in Ee. subst err.
+      assert (HI1 : Inv p1') by (eapply Feed_Inv; eauto).
+      rewrite jset_err_same in H by apply HI1.
+      destruct (IH _ _ _ _ _ HI1 H) as (pm & sm & em & F2 & O).
+      destruct (M2 eq_refl _ F2) as ([[pm' sm'] em'] & F3 & S3).
+      cbn [sim] in S3. destruct S3 as (<- & <- & S3).
+      exists pm', sm, em. split; [exact F3|].
+      destruct O as [O|[O1 [q O2]]]; [left; exact O|right].
+      split; [exact O1|]. eapply jfinalize_peq; [apply S3; exact O1|exact O2].
+    + inversion H; subst. apply jisnil_false in Ee.
+      destruct (M1 Ee) as [p1'' F3].
+      exists p1'', sf, ef. split; [exact F3|]. left. auto.
+Qed.
+
+Lemma parse_whole : forall s b p' sf ef,
+  jp_parse pf jparser0 s b = Ok (p', sf, ef) -> Whole jparser0 s b (sf, ef).
+Proof.
+  intros s b p' sf ef H. unfold jp_parse in H.
+  change (jset_cur (jset_lit _ []) jStart) with jparser0 in H.
+  destruct (jfeed (2 * length b + 2) pf jparser0 s b) as [[[p1 s1] e1]| | |] eqn:E; try discriminate.
+  apply jfeed_sound in E; [|apply inv0].
+  exists p1, s1, e1. split; [exact E|].
+  destruct (jisnil e1) eqn:Ee.
+  - apply jisnil_true in Ee. right. split; [exact Ee|]. apply with_final_Some in H. exists p'. exact H.
+  - apply jisnil_false in Ee. inversion H; subst. left. auto.
+Qed.
+
+(* ---------- C02 ---------- *)
+(* Whenever the two runs return (they always do, see C03 in ParseSafety.v), they
+   report exactly the same events and the same verdict, also when the input is
+   rejected, for every visitor failure schedule vfail. *)
+Theorem C02_json_chunks_strong : forall vfail cs1 cs2 ev1 e1 p1 ev2 e2 p2,
+  concat cs1 = concat cs2 ->
+  jrun_chunks pf vfail cs1 = Ok (ev1, e1, p1) -> jrun_chunks pf vfail cs2 = Ok (ev2, e2, p2) ->
+  ev1 = ev2 /\ e1 = e2.
+Proof.
+  intros vfail cs1 cs2 ev1 e1 p1 ev2 e2 p2 Hc H1 H2. unfold jrun_chunks in *.
+  destruct (jp_writes pf jparser0 (sink0 vfail) cs1) as [[[pf1 sf1] ef1]| | |] eqn:E1; try discriminate.
+  destruct (jp_writes pf jparser0 (sink0 vfail) cs2) as [[[pf2 sf2] ef2]| | |] eqn:E2; try discriminate.
+  apply (writes_whole _ _ _ _ _ _ Inv0) in E1. apply (writes_whole _ _ _ _ _ _ Inv0) in E2.
+  rewrite Hc in E1. pose proof (Whole_det _ _ _ _ _ E1 E2) as E. inversion E; subst.
+  inversion H1; inversion H2; subst. auto.
+Qed.
+
+Theorem C02_json_entry_strong : forall vfail cs ev1 e1 p1 ev2 e2 p2,
+  jrun_parse pf vfail (concat cs) = Ok (ev1, e1, p1) -> jrun_chunks pf vfail cs = Ok (ev2, e2, p2) ->
+  ev1 = ev2 /\ e1 = e2.
+Proof.
+  intros vfail cs ev1 e1 p1 ev2 e2 p2 H1 H2. unfold jrun_parse, jrun_chunks in *.
+  destruct (jp_parse pf jparser0 (sink0 vfail) (concat cs)) as [[[pf1 sf1] ef1]| | |] eqn:E1; try discriminate.
+  destruct (jp_writes pf jparser0 (sink0 vfail) cs) as [[[pf2 sf2] ef2]| | |] eqn:E2; try discriminate.
+  apply parse_whole in E1. apply (writes_whole _ _ _ _ _ _ Inv0) in E2.
+  pose proof (Whole_det _ _ _ _ _ E1 E2) as E. inversion E; subst.
+  inversion H1; inversion H2; subst. auto.
+Qed.
+
+(* One-write split, as a statement about the model functions: when the three
+   calls return, Write(a ++ b) does what Write(a); Write(b) does (the parsers agree
+   modulo the dead field jp_req). *)
+Lemma peq_set_err : forall p q e, peq p q -> peq (jset_err p e) (jset_err q e).
+Proof. intros p q e (H1 & H2 & H3 & H4 & H5 & H6 & H7). unfold peq. js. repeat split; auto. Qed.
+
+Theorem C02_json_write_split : forall p s a b p1 s1 p2 s2 e2 p3 s3 e3,
+  Inv p ->
+  jp_write pf p s a = Ok (p1, s1, jpnil) -> jp_write pf p1 s1 b = Ok (p2, s2, e2) ->
+  jp_write pf p s (a ++ b) = Ok (p3, s3, e3) ->
+  s3 = s2 /\ e3 = e2 /\ (e2 = jpnil -> peq p2 p3).
+Proof.
+  intros p s a b p1 s1 p2 s2 e2 p3 s3 e3 HI W1 W2 W3.
+  destruct (jp_write_Ok _ _ _ _ _ _ (proj1 HI) W1) as (p1' & F1 & E1).
+  assert (HI1 : Inv p1') by (eapply Feed_Inv; eauto).
+  change (jisnil jpnil) with true in E1. cbv iota in E1.
+  rewrite jset_err_same in E1 by apply HI1. subst p1.
+  destruct (jp_write_Ok _ _ _ _ _ _ (proj1 HI1) W2) as (p2' & F2 & E2).
+  destruct (jp_write_Ok _ _ _ _ _ _ (proj1 HI) W3) as (p3' & F3 & E3).
+  destruct (Feed_merge p s a b p1' s1 jpnil (proj1 HI) F1) as [_ M2].
+  destruct (M2 eq_refl _ F2) as ([[pm sm] em] & F4 & S4).
+  pose proof (Feed_det _ _ _ _ _ F3 F4) as E. inversion E; subst.
+  cbn [sim] in S4. destruct S4 as (<- & <- & S4).
+  split; [reflexivity|]. split; [reflexivity|]. intros He.
+  apply peq_set_err. apply S4. exact He.
+Qed.
+
 End JsonChunks.
+
+(* The observation: both runs return; identical event lists and identical verdict
+   (error code), whether the input is accepted or rejected.  The model delivers all
+   strings and keys as EStrRef / EKeyRef, so no merging of delivery forms is needed. *)
+Definition same_jobs (r1 r2 : res (list event * Z * jparser)) : Prop :=
+  match r1, r2 with
+  | Ok (ev1, e1, _), Ok (ev2, e2, _) => ev1 = ev2 /\ e1 = e2
+  | _, _ => False
+  end.
+
+(* the weaker form of the task statement *)
+Definition same_jobs_weak (r1 r2 : res (list event * Z * jparser)) : Prop :=
+  match r1, r2 with
+  | Ok (ev1, e1, _), Ok (ev2, e2, _) =>
+      (e1 = jpnil /\ e2 = jpnil /\ ev1 = ev2) \/ (e1 <> jpnil /\ e2 <> jpnil)
+  | _, _ => False
+  end.
+Lemma same_jobs_weaken : forall r1 r2, same_jobs r1 r2 -> same_jobs_weak r1 r2.
+Proof.
+  intros [[[ev1 e1] p1]| | |] [[[ev2 e2] p2]| | |] H; cbn in *; try contradiction.
+  destruct H as [-> ->]. destruct (Z.eq_dec e2 jpnil); auto.
+Qed.
+
+Theorem C02_json_chunks : forall pf vfail cs1 cs2, concat cs1 = concat cs2 ->
+  same_jobs (jrun_chunks pf vfail cs1) (jrun_chunks pf vfail cs2).
+Proof.
+  intros pf vfail cs1 cs2 Hc.
+  destruct (C03_json_chunks_total_any pf vfail cs1) as (ev1 & e1 & p1 & H1).
+  destruct (C03_json_chunks_total_any pf vfail cs2) as (ev2 & e2 & p2 & H2).
+  rewrite H1, H2. cbn [same_jobs]. eapply C02_json_chunks_strong; eauto.
+Qed.
+
+Theorem C02_json_entry : forall pf vfail cs,
+  same_jobs (jrun_parse pf vfail (concat cs)) (jrun_chunks pf vfail cs).
+Proof.
+  intros pf vfail cs.
+  destruct (C03_json_parse_total_any pf vfail (concat cs)) as (ev1 & e1 & p1 & H1).
+  destruct (C03_json_chunks_total_any pf vfail cs) as (ev2 & e2 & p2 & H2).
+  rewrite H1, H2. cbn [same_jobs]. eapply C02_json_entry_strong; eauto.
+Qed.
+
+Corollary C02_json_chunks_weak : forall pf vfail cs1 cs2, concat cs1 = concat cs2 ->
+  same_jobs_weak (jrun_chunks pf vfail cs1) (jrun_chunks pf vfail cs2).
+Proof. intros. apply same_jobs_weaken, C02_json_chunks; assumption. Qed.
+Corollary C02_json_entry_weak : forall pf vfail cs,
+  same_jobs_weak (jrun_parse pf vfail (concat cs)) (jrun_chunks pf vfail cs).
+Proof. intros. apply same_jobs_weaken, C02_json_entry. Qed.
+
+(* The final parser states may really differ in jp_req: "true" in one write or in two. *)
+Example C02_json_req_differs : forall pf,
+  match jrun_chunks pf None [[116; 114; 117; 101]], jrun_chunks pf None [[116; 114]; [117; 101]] with
+  | Ok (ev1, e1, p1), Ok (ev2, e2, p2) => ev1 = ev2 /\ e1 = e2 /\ jp_req p1 = 3 /\ jp_req p2 = 2
+  | _, _ => False
+  end.
+Proof. intros pf. vm_compute. repeat split. Qed.
+
+Print Assumptions C02_json_write_split.
+Print Assumptions C02_json_chunks_strong.
+Print Assumptions C02_json_entry_strong.
+Print Assumptions C02_json_chunks.
+Print Assumptions C02_json_entry.
+Print Assumptions C02_json_chunks_weak.
+Print Assumptions C02_json_entry_weak.
